@@ -24,52 +24,56 @@ type dispSession struct {
 	rg     *schemeRig
 	cancel context.CancelFunc
 	done   chan error
-	topic  []byte
-	self   uint16
-	ids    []uint16
+	topic   []byte
+	self    uint16
+	ids     []uint16 // the nodes acknowledgements are broadcast to
+	session string
+	backend *scriptedBackend
 }
 
 func openDispSession(self uint16, ids []uint16, permissive bool) (*dispSession, error) {
+	return openDispSessionOf("keygen", self, ids, ids, permissive)
+}
+
+// openDispSessionOf opens a key-generation or signing session at node `self`: `configured` is the whole
+// membership, `agreed` (a subset containing self) the list the synchroniser returns.
+func openDispSessionOf(session string, self uint16, configured, agreed []uint16, permissive bool) (*dispSession, error) {
 	membership := map[tss.UniversalID]tss.PartyID{}
-	for _, id := range ids {
+	for _, id := range configured {
 		membership[tss.UniversalID(id)] = tss.PartyID(id)
 	}
-	// the agreed list leaves out the last configured node when there are more than 3: its traffic must be filtered
-	agreed := ids
 	rg := newSchemeRig(self, len(agreed)-1, membership, fixedSyncFactory(agreed), permissive)
+	rg.scheme.SetStoredData([]byte("stored"))
 	ctx, cancel := context.WithCancel(context.Background())
-	ds := &dispSession{rg: rg, cancel: cancel, done: make(chan error, 1), topic: sha([]byte("DKG")), self: self, ids: ids}
-	go func() {
-		_, err := rg.scheme.KeyGen(ctx, len(agreed), len(agreed)-1)
-		ds.done <- err
-	}()
-	deadline := time.After(5 * time.Second)
-	for {
-		rg.mu.Lock()
-		kg := rg.kg
-		rg.mu.Unlock()
-		if kg != nil {
-			select {
-			case <-kg.started:
-				kg.takeEvents()
-				rg.takeSent()
-				return ds, nil
-			default:
-			}
-		}
-		select {
-		case <-deadline:
-			cancel()
-			return nil, fmt.Errorf("session did not open")
-		case err := <-ds.done:
-			return nil, fmt.Errorf("KeyGen returned early: %v", err)
-		case <-time.After(200 * time.Microsecond):
-		}
+	ds := &dispSession{rg: rg, cancel: cancel, done: make(chan error, 1), topic: sha([]byte("DKG")), self: self, ids: configured, session: session}
+	get := func() *scriptedBackend { rg.mu.Lock(); defer rg.mu.Unlock(); return rg.kg }
+	if session == "sign" {
+		ds.topic = sha([]byte("sign-topic"))
+		ds.ids = agreed
+		get = func() *scriptedBackend { rg.mu.Lock(); defer rg.mu.Unlock(); return rg.signer }
+		go func() {
+			_, err := rg.scheme.Sign(ctx, sha([]byte("digest")), "sign-topic")
+			ds.done <- err
+		}()
+	} else {
+		go func() {
+			_, err := rg.scheme.KeyGen(ctx, len(agreed), len(agreed)-1)
+			ds.done <- err
+		}()
 	}
+	b, err, started := waitBackend(get, ds.done)
+	if !started {
+		cancel()
+		return nil, fmt.Errorf("session did not open: %v", err)
+	}
+	ds.backend = b
+	b.takeEvents()
+	rg.takeSent()
+	return ds, nil
 }
 
 func (ds *dispSession) close() {
-	ds.rg.kg.release <- nil
+	ds.backend.release <- nil
 	select {
 	case <-ds.done:
 	case <-time.After(5 * time.Second):
@@ -83,7 +87,7 @@ func (ds *dispSession) handle(s *out.Sink, src uint16, data []byte) string {
 	var evs []string
 	order := 0
 	_ = order
-	ds.rg.kg.onEvent = func(e backendEvent) {
+	ds.backend.onEvent = func(e backendEvent) {
 		cls := "p"
 		if e.bcast {
 			cls = "b"
@@ -111,9 +115,9 @@ func (ds *dispSession) handle(s *out.Sink, src uint16, data []byte) string {
 		ds.rg.scheme.HandleMessage(&tss.IncMessage{Data: data, Source: src, MsgType: uint8(tss.MsgTypeMPC), Topic: ds.topic})
 		return ""
 	})
-	ds.rg.kg.onEvent = nil
+	ds.backend.onEvent = nil
 	ds.rg.onSend = nil
-	ds.rg.kg.takeEvents()
+	ds.backend.takeEvents()
 	ds.rg.takeSent()
 	if res == "panic" {
 		evs = append(evs, "panic")
@@ -142,7 +146,20 @@ func runDisp(r *prng.R, s *out.Sink, tier string) {
 		}
 		self := ids[r.Intn(n)]
 		permissive := k%6 == 5
-		ds, err := openDispSession(self, ids, permissive)
+		// the configured membership may be larger than the agreed list: members that were not selected for the
+		// session are non-participants, and so are unconfigured outsiders
+		configured := append([]uint16{}, ids...)
+		var bystanders []uint16
+		for e := 0; e < r.Intn(3); e++ {
+			b := ids[n-1] + uint16(7+e)
+			configured = append(configured, b)
+			bystanders = append(bystanders, b)
+		}
+		session := "keygen"
+		if k%2 == 1 {
+			session = "sign"
+		}
+		ds, err := openDispSessionOf(session, self, configured, ids, permissive)
 		if err != nil {
 			s.Violate("C10", "could not open a session: "+err.Error(), fmt.Sprint(ids))
 			continue
@@ -152,8 +169,8 @@ func runDisp(r *prng.R, s *out.Sink, tier string) {
 			perm = "1"
 		}
 		newLine := fmt.Sprintf("rbc 0 new %d %d %s %s", self, n, out.U16s(ids), perm)
-		s.Op("new", false, newLine, "ok")
-		hist := []string{newLine}
+		s.Op("new/"+session, false, newLine, "ok")
+		hist := []string{newLine, fmt.Sprintf("# %s session at node %d, configured %v, agreed %v", session, self, configured, ids)}
 		bodies := [][]byte{r.Bytes(3), r.Bytes(1), {}}
 		var valid [][2]interface{} // (src, data)
 		add := func(src uint16, data []byte) { valid = append(valid, [2]interface{}{src, data}) }
@@ -192,6 +209,9 @@ func runDisp(r *prng.R, s *out.Sink, tier string) {
 				data, tag = d, "bitflip"
 			case 3:
 				src, tag = outsider, "outsider"
+				if len(bystanders) > 0 && r.Bool() {
+					src, tag = bystanders[r.Intn(len(bystanders))], "non-selected-member"
+				}
 			case 4:
 				data, tag = []byte{}, "empty"
 			case 5:
@@ -221,7 +241,7 @@ func runDisp(r *prng.R, s *out.Sink, tier string) {
 				break
 			}
 			// C03 at the dispatcher: nothing of an outsider ever reaches the backend or is acknowledged
-			if src == outsider && ans != "-" {
+			if (src == outsider || tag == "non-selected-member" || tag == "non-selected-member+deliver") && ans != "-" {
 				s.Violate("C03", "traffic of a non-participant had an effect: "+ans, strings.Join(hist, "\n"))
 			}
 		}
